@@ -15,8 +15,8 @@ SPEC = {
         "known-finding classes are kept out of the main campaigns by construction / by one masked field each and are shown by replays/C15/*.json",
     ],
     "campaigns": [
-        {"name": "converge", "run": "^TestConverge$", "quick": B(600, 4), "thorough": B(30000, 10, 3000)},
-        {"name": "converge_catalogue", "run": "^TestConvergeCatalogue$", "quick": B(400, 3), "thorough": B(30000, 6, 3000)},
+        {"name": "converge", "run": "^TestConverge$", "quick": B(1000, 5), "thorough": B(25000, 9, 3000)},
+        {"name": "converge_catalogue", "run": "^TestConvergeCatalogue$", "quick": B(600, 3), "thorough": B(25000, 6, 3000)},
     ],
 }
 
